@@ -719,6 +719,10 @@ fn layer_via_artifact(full: &str, bytes: &[u8]) -> Option<Result<(), String>> {
     let _ = std::fs::remove_file(&path);
     let r = (|| -> Result<(), String> {
         let mut b = Builder::new_archive_unnamed(path.clone()).map_err(|e| format!("infra: {e:#}"))?;
+        // (other implementations also put layers of their own media types into the same artifact)
+        if bytes.len() % 2 == 0 {
+            b.add_layer(ommx::ocipkg::oci_spec::image::MediaType::Other("application/json".to_string()), b"{}", std::collections::HashMap::new()).map_err(|e| format!("infra: {e:#}"))?;
+        }
         let desc = b.add_layer(mt, bytes, std::collections::HashMap::new()).map_err(|e| format!("infra: {e:#}"))?;
         let digest = Digest::new(desc.digest()).map_err(|e| format!("infra: {e:#}"))?;
         b.build().map_err(|e| format!("infra: {e:#}"))?;
